@@ -2169,12 +2169,14 @@ class VM:
             return _relative_index(self._to_number(value), length)
 
         def toString_fn(*args):
-            # Join elements with comma
-            return ",".join(str(arr.get_index(i)) for i in range(arr.length))
+            # Join elements with comma (each element as ToString gives it)
+            return ",".join(to_string(arr.get_index(i)) for i in range(arr.length))
 
         def join_fn(*args):
-            separator = to_string(args[0]) if args else ","
-            return separator.join(str(arr.get_index(i)) for i in range(arr.length))
+            separator = to_string(args[0]) if args and args[0] is not UNDEFINED else ","
+            return separator.join(
+                to_string(arr.get_index(i)) for i in range(arr.length)
+            )
 
         def subarray_fn(*args):
             # Relative indices, clamped to bounds
